@@ -26,6 +26,7 @@ package trzsz
 
 import (
 	"bytes"
+	"sync/atomic"
 	"time"
 )
 
@@ -37,6 +38,7 @@ type trzszBuffer struct {
 	readBuf    bytes.Buffer
 	timeout    <-chan time.Time
 	newTimeout <-chan time.Time
+	pausing    *atomic.Bool
 }
 
 func newTrzszBuffer() *trzszBuffer {
@@ -97,9 +99,16 @@ func (b *trzszBuffer) nextBuffer() ([]byte, error) {
 		case <-b.stopCh:
 			return nil, errStopped
 		case <-b.timeout:
+			pausing := b.pausing != nil && b.pausing.Load()
 			if b.newTimeout != nil {
 				b.timeout = b.newTimeout
 				b.newTimeout = nil
+				continue
+			}
+			if pausing {
+				// the stop question is open: the deadline is moved when it has been answered, and what has been
+				// read of the current line or block so far must not be given up (a new read would start without it)
+				b.timeout = time.After(100 * time.Millisecond)
 				continue
 			}
 			return nil, errReceiveDataTimeout
